@@ -195,6 +195,17 @@ pub fn run(text: &str, cases_path: &str, out: &mut impl Write) {
                         }
                     }
                     writeln!(out, "{id} !{n} events {}", evs.join(" ")).unwrap();
+                    // partial replays (what a device merging an incoming tail of the file log computes):
+                    // from every commit of the log, after every operation
+                    {
+                        let commits: Vec<[u8; 32]> = log.tree().leaves().unwrap_or_default();
+                        for (k, c) in commits.iter().enumerate() {
+                            let from = sos_core::commit::CommitHash(*c);
+                            let mut part: Vec<String> = FileReducer::new(&*log).reduce(Some(&from)).await.map(|s| s.iter().map(|e| show(e)).collect()).unwrap_or_else(|_| vec!["ERR".into()]);
+                            part.sort();
+                            writeln!(out, "{id} {n} tail {k} {}", part.join(" ")).unwrap();
+                        }
+                    }
                 }
                 // expectation from the harness' own bookkeeping: one blob per live file secret, decrypting to its content
                 let mut want: Vec<String> = slots.iter().map(|(k, v)| format!("{}/{}:{}", fname(&v.1), k, v.2)).collect();
